@@ -285,6 +285,24 @@ fn run(ctx: &mut Ctx, rep: &mut Report) {
             }
         });
     }
+    // header flags x inflated record counts x every truncation (work must follow the bytes, not the counts)
+    {
+        let ctxp: *mut Ctx = ctx;
+        let repp: *mut Report = rep;
+        let mp: *mut u64 = &mut maxsteps;
+        flags_truncation_packets(|i, p| {
+            let (ctx, rep, maxsteps) = unsafe { (&mut *ctxp, &mut *repp, &mut *mp) };
+            if !ctx.mine(i) {
+                return;
+            }
+            rep.transitions += 1;
+            rep.states += 1;
+            match measure(p) {
+                Ok((s, _)) => *maxsteps = (*maxsteps).max(s),
+                Err(e) => rep.violation("steps_exceed_absolute_bound", format!("flags/counts/truncation input ({} bytes) {}: {}", p.len(), hex(&p[..p.len().min(40)]), e), json!({"family": "L1", "input": hex(p)})),
+            }
+        });
+    }
     rep.class(&format!("fam=L1 maxsteps<={}", (maxsteps / 8 + 1) * 8));
     rep.evaluations = rep.transitions;
 }
